@@ -241,27 +241,36 @@ def build(s, X=None):
                 kw["base_kernel_params"] = {"gamma": 0.5}  # documented: ignored (with a warning) next to a callable
     if cls == "Douglas" and s.get("feature_mask") is not None:
         kw["feature_mask"] = np.array(s["feature_mask"], dtype=bool)
-    est = CLASSES[cls](**number_types(kw, s.get("ntype")))
+    est = CLASSES[cls](**number_types(kw, s.get("ntype"), s.get("ntype_force")))
     return est, y
 
 
-def number_types(kw, seed):
+def number_types(kw, seed, force=None):
     """The same hyper-parameter values in the numeric types users produce (grids made with numpy, integer literals for
-    real-valued parameters): np.int64 / np.int32 for integers, np.float64 / int for reals."""
-    if seed is None:
+    real-valued parameters): np.int64 / np.int32 / narrow integer types for integers, np.float64 / np.float32 / int for reals.
+    `force` = {parameter: numpy type name} pins types (used by replay files)."""
+    if seed is None and not force:
         return kw
-    rs = np.random.RandomState(seed)
+    rs = np.random.RandomState(seed or 0)
     out = {}
     for k, v in kw.items():
-        c = rs.randint(4)
+        c = rs.randint(7)
         if isinstance(v, bool) or v is None:
             out[k] = v
         elif isinstance(v, int):
-            out[k] = [v, np.int64(v), np.int32(v), np.intp(v)][c]
+            narrow = [t for t in (np.int8, np.uint8, np.int16) if np.iinfo(t).min <= v <= np.iinfo(t).max]
+            if seed is None:
+                out[k] = v
+            elif c >= 5 and narrow:
+                out[k] = narrow[(c - 5) % len(narrow)](v)
+            else:
+                out[k] = [v, np.int64(v), np.int32(v), np.intp(v), v][c % 5]
         elif isinstance(v, float):
-            out[k] = [v, np.float64(v), int(v) if float(v).is_integer() and v != 0 else v, np.float64(v)][c]
+            out[k] = [v, np.float64(v), int(v) if float(v).is_integer() and v != 0 else v, np.float64(v), v, v, v][c] if seed is not None else v
         else:
             out[k] = v
+        if force and k in force and out[k] is not None:
+            out[k] = getattr(np, force[k])(v)
     return out
 
 
@@ -391,4 +400,4 @@ def build_kauri(s, X=None):
     else:
         kw["kernel"] = "precomputed"
         y = kauri_ref_kernel(s, X)
-    return tree.Kauri(**number_types(kw, s.get("ntype"))), y
+    return tree.Kauri(**number_types(kw, s.get("ntype"), s.get("ntype_force"))), y
